@@ -3,9 +3,15 @@
 package fuzz
 
 import (
+	"bytes"
+	"go/parser"
+	"go/token"
+	"os"
+	"path/filepath"
 	"reflect"
 	"testing"
 
+	"gitee.com/xuesongtao/protoc-go-valid/file"
 	"gitee.com/xuesongtao/protoc-go-valid/valid"
 )
 
@@ -101,5 +107,43 @@ func FuzzText(f *testing.F) {
 		_ = valid.NewRule().Set(s, s).Get(s)
 		_ = valid.GetTimeFmt(int8(len(s)), s, s, s, s)
 		_ = reflect.TypeOf(s)
+	})
+}
+
+var injectSeeds = []string{
+	"package pb\n\ntype A struct {\n\tName string `json:\"name\"` // 姓名 @tag valid:\"required\"\n\tAge int32 `json:\"age\" valid:\"x\"` // @tag valid:\"to=1~150\" form:\"age\"\n}\n",
+	"package pb\n\ntype A struct {\n\tName string // @tag valid:\"required\"\n\tB struct{ Y int `json:\"y\"` } `json:\"y\"` // @tag valid:\"exist\"\n}\n\ntype (\n\tG struct {\n\t\tX int `json:\"x\"` // @tag a:\"b\"\n\t}\n)\n",
+	"package pb\n\ntype A struct {\n\tN string \"json:\\\"n\\\"\" // @tag required\n\tE string `` // see the @tag docs\n\tM string `json:\"m\"` /* @tag re:\"'^a$1'\" */\n}\n",
+}
+
+// FuzzInject: the injector's library entry points on arbitrary bytes named *.go. Oracle (C19): no
+// panic; input that does not parse is left byte-identical; input that parses still parses afterwards.
+func FuzzInject(f *testing.F) {
+	for _, s := range injectSeeds {
+		f.Add([]byte(s))
+	}
+	dir := f.TempDir()
+	f.Fuzz(func(t *testing.T, src []byte) {
+		p := filepath.Join(dir, "in.go")
+		if err := os.WriteFile(p, src, 0o644); err != nil {
+			t.Skip()
+		}
+		_, perr := parser.ParseFile(token.NewFileSet(), p, src, parser.ParseComments)
+		areas, err := file.ParseFile(p)
+		if err == nil {
+			_ = file.WriteFile(p, areas)
+		}
+		out, rerr := os.ReadFile(p)
+		if rerr != nil {
+			t.Fatalf("file disappeared: %v", rerr)
+		}
+		if perr != nil && !bytes.Equal(out, src) {
+			t.Fatalf("input that does not parse was modified")
+		}
+		if perr == nil {
+			if _, e := parser.ParseFile(token.NewFileSet(), p, out, parser.ParseComments); e != nil {
+				t.Fatalf("output no longer parses: %v", e)
+			}
+		}
 	})
 }
